@@ -147,6 +147,17 @@ func (w *world) emit(ev vh.Event) {
 	w.rec.Emit(ev)
 }
 
+// lastServed: the round of the template the miner was served last (it may already be over for the chain)
+func (w *world) lastServed() *round {
+	var r *round
+	for _, x := range w.rounds {
+		if !x.first.IsZero() {
+			r = x
+		}
+	}
+	return r
+}
+
 func (w *world) cur() *round {
 	if w.idx < len(w.rounds) {
 		return w.rounds[w.idx]
@@ -490,7 +501,7 @@ func (c *collector) RequestProof(ctx context.Context, req *protocol.RequestProof
 	}
 	c.w.mu.Lock()
 	ri := -1
-	if r := c.w.cur(); r != nil {
+	if r := c.w.lastServed(); r != nil {
 		ri = r.idx
 	}
 	c.w.emit(vh.Event{"ev": "ProofReq", "round": ri, "c": c.name, "q": q, "index": req.Index, "challok": req.Challenge == challenge, "abs": time.Since(c.w.t0).Milliseconds()})
@@ -510,7 +521,7 @@ func (c *collector) RequestSignature(ctx context.Context, req *protocol.RequestS
 	}
 	c.w.mu.Lock()
 	ri := -1
-	if r := c.w.cur(); r != nil {
+	if r := c.w.lastServed(); r != nil {
 		ri = r.idx
 		r.sigHash[q] = req.Hash
 	}
